@@ -10,6 +10,7 @@ from ..model import AnalysisError, Cls, Func, Program, walk_own
 from ..report import Report
 from ..resolve import const_value, dotted
 from ..util import calls_in, ext_name, returns_of, src
+from .oneshot import oneshot_rule
 
 SORTED_MOD = "windpyutils.structures.sorted"
 
@@ -60,6 +61,8 @@ def run(prog: Program, rep: Report):
     r6_validation(prog, rep, sf)
     r7_observers(prog, rep, sf)
     r8_empty_methods(prog, rep, sf)
+    oneshot_rule(prog, rep, "C09.R9", [prog.method(sf.sset, "__init__"), prog.method(sf.smap, "__init__")],
+                 "initial values given as a generator must all arrive in the storage")
 
 
 # ---------------------------------------------------------------------------------------------- R1
